@@ -1,3 +1,6 @@
 import TFV.Properties.EA
+import TFV.Properties.Src.Engine
 #print axioms TFV.EA.C05_dual
 #print axioms TFV.EA.C05_aim
+#print axioms TFV.SrcTie.C05_src_get_fitness
+#print axioms TFV.SrcTie.C05_src_get_fitness_is_fitOf
